@@ -11,8 +11,8 @@ import PymtlVerif.Proofs.Kahn
   HeuristicTopoPass), never emits a block twice, puts every edge's source before its target, and when it
   stops early the leftovers contain a cycle (`kahn_sound`, `kahn_leftover`) — the UpblkCyclicError case.
 
-The method-constraint BFS of `GenDAGPass._process_methods` is not modelled (partial; covered by the
-correspondence check's run-time call-order recording only).
+The method-constraint search of `GenDAGPass._process_methods` is modelled in `Model/Methods.lean` and its
+theorems are in `Props/C02m.lean` (namespace `PV.C02m`).
 -/
 namespace PV.C02
 open PV.Rtl
